@@ -8,6 +8,7 @@ import A5.Model.Compact
 import A5.Model.Hex
 import A5.Model.Hilbert
 import A5.Model.Authalic
+import A5.Model.CellGeo
 
 namespace A5.Driver
 open A5
@@ -35,6 +36,11 @@ def fromHexBytes (s : String) : Option String :=
 
 def toHexBytes (s : String) : String :=
   String.ofList (s.toList.flatMap fun c => [hexDigitChar (c.toNat / 16), hexDigitChar (c.toNat % 16)])
+
+def fb (n : Nat) : Float := Float.ofBits (UInt64.ofNat n)
+
+def fmtV2s (l : List (Float × Float)) : String :=
+  l.foldl (fun acc v => acc ++ " " ++ toString v.1.toBits ++ " " ++ toString v.2.toBits) ("ok " ++ toString l.length)
 
 def ofPyM {α} (f : α → String) : PyM α → String
   | .ok a => f a
@@ -115,6 +121,33 @@ def runOp (toks : List String) : String :=
     match ib.toNat?, jb.toNat?, n.toNat? with
     | some ib, some jb, some n =>
       s!"ok {Hilbert.ijToS (Float.ofBits (UInt64.ofNat ib)) (Float.ofBits (UInt64.ofNat jb)) n o}"
+    | _, _, _ => "bad-op"
+  | ["l2c", lo, la, r] =>
+    match lo.toNat?, la.toNat?, r.toInt? with
+    | some lo, some la, some r => ofPyM (fun n => s!"ok {n}") (CellGeo.lonlatToCell (fb lo, fb la) r)
+    | _, _, _ => "bad-op"
+  | ["c2l", n] =>
+    match n.toNat? with
+    | some n => ofPyM (fun (p : Float × Float) => s!"ok {p.1.toBits} {p.2.toBits}") (CellGeo.cellToLonLat n)
+    | none => "bad-op"
+  | ["c2b", n, closed, seg] =>
+    match n.toNat?, closed.toNat?, optInt seg with
+    | some n, some c, some sg => ofPyM fmtV2s (CellGeo.cellToBoundary n (c == 1) sg)
+    | _, _, _ => "bad-op"
+  | ["pent", h, q, s, o] =>
+    match h.toNat?, q.toNat?, s.toNat? with
+    | some h, some q, some s =>
+      ofPyM (fun (a : Hilbert.Anchor) =>
+        let vs := CellGeo.pentagonVertices h q a
+        fmtV2s (vs ++ [CellGeo.shapeCenter vs])) (Hilbert.sToAnchor s h o)
+    | _, _, _ => "bad-op"
+  | ["dfwd", t, p, o] =>
+    match t.toNat?, p.toNat?, o.toNat? with
+    | some t, some p, some o => ofPyM (fun (v : Float × Float) => s!"ok {v.1.toBits} {v.2.toBits}") (Geo.dodecForward (fb t, fb p) o)
+    | _, _, _ => "bad-op"
+  | ["dinv", x, y, o] =>
+    match x.toNat?, y.toNat?, o.toNat? with
+    | some x, some y, some o => ofPyM (fun (v : Float × Float) => s!"ok {v.1.toBits} {v.2.toBits}") (Geo.dodecInverse (fb x, fb y) o)
     | _, _, _ => "bad-op"
   | ["auth", dir, b] =>
     match b.toNat? with
